@@ -165,7 +165,8 @@ pub fn bin_source(idl: &Idl, stem: &str, cases: &[(usize, CallCase)]) -> String 
     s.push_str("        _ => vec![sx::atom(\"no-such-case\")],\n    }\n}\n\n");
     s.push_str(
         "fn service() -> varlink::VarlinkService {\n    varlink::VarlinkService::new(\"org.verif\", \"genprobe\", \"1\", \"http://localhost\", vec![Box::new(g::new(Box::new(Rec)))])\n}\n\n\
-         fn main() {\n    genprobe::serve(genprobe::Handlers { probe, call: call_case, service });\n}\n",
+         fn description() -> &'static str {\n    varlink::Interface::get_description(&g::new(Box::new(Rec)))\n}\n\n\
+         fn main() {\n    genprobe::serve(genprobe::Handlers { description, probe, call: call_case, service });\n}\n",
     );
     s
 }
